@@ -297,6 +297,50 @@ pub fn run(cases: &[Value], plans: &Plans, sink: &Sink, thorough: bool, seed: u6
             recips.push(Recipient { name: name.to_string(), cert: k });
         }
     }
+    // v4 ECDH keys that announce other KDF parameters than the curve's defaults (the plan covers every hash x cipher)
+    for (i, (name, enc, h, c)) in [("P256 v4 kdf-sha512-aes256", EncAlg::EcdhP256, HashAlgorithm::Sha512, SymmetricKeyAlgorithm::AES256),
+                                   ("P384 v4 kdf-sha384-aes256", EncAlg::EcdhP384, HashAlgorithm::Sha384, SymmetricKeyAlgorithm::AES256),
+                                   ("P521 v4 kdf-sha512-aes128", EncAlg::EcdhP521, HashAlgorithm::Sha512, SymmetricKeyAlgorithm::AES128),
+                                   ("Curve25519 v4 kdf-sha512-aes256", EncAlg::EcdhCv25519, HashAlgorithm::Sha512, SymmetricKeyAlgorithm::AES256)].into_iter().enumerate() {
+        match guard(|| gen_key_ecdh_kdf(seed ^ (0x12D0 + i as u64), &enc, h, c, name)) {
+            Out::Ok(k) => recips.push(Recipient { name: name.to_string(), cert: k }),
+            o => sink.put(rec("c12.pkesk", json!({"recipient": name}), false, "pkesk_keygen", json!({"outcome": o.class(), "detail": o.detail()}))),
+        }
+    }
+    // the ECDH wrap as a function of the plaintext length (the public ecdh::encrypt takes any 1..=239 octets): the padded
+    // length and the padding octets are those of the plan's PadLen for every length, also the 8-aligned ones
+    for rc in recips.iter().filter(|r| !r.name.starts_with('X')) {
+        let sub = &rc.cert.secret_subkeys[0];
+        let subpub = sub.public_key();
+        let v6key = subpub.version() == KeyVersion::V6;
+        let curve = rc.name.split(' ').next().unwrap();
+        if (curve == "P384" || curve == "P521") && !thorough { continue; }
+        let sk = Sk::S(sub.key.clone());
+        let lens: Vec<usize> = if thorough { (1..=80).collect() } else { (1..=41).collect() };
+        for n in lens {
+            nt();
+            let cj = json!({"recipient": rc.name, "plain_len": n});
+            let r = guard(|| -> Result<String, String> {
+                let e = |x: pgp::errors::Error| x.to_string();
+                let pgp::types::PublicParams::ECDH(params) = subpub.public_params() else { return Err("not an ECDH key".into()) };
+                let plain = rand_bytes(seed ^ 0x12AD ^ n as u64, n);
+                let fpr = subpub.fingerprint();
+                let pgp::types::PkeskBytes::Ecdh { public_point, encrypted_session_key } = pgp::crypto::ecdh::encrypt(rng(seed ^ n as u64), params, fpr.as_bytes(), &plain).map_err(e)? else { return Err("not ECDH values".into()) };
+                let pubb = sk.public_body();
+                let material = plain_material(&sk)?;
+                let (_oid, _point, hash_id, cipher_id) = ecdh_params(&pubb, v6key)?;
+                let plan = &cases.iter().find(|c| c["kind"] == "ecdh" && c["curve"] == curve && c["hash"] == hash_id as u64 && c["cipher"] == cipher_id as u64 && c["keyver"] == if v6key { 6 } else { 4 }).ok_or("no ecdh plan")?["plan"];
+                let z = dh(curve, &material[2..], public_point.as_ref())?;
+                let kek = ecdh_kek(plan, &z, fpr.as_bytes(), hash_id)?;
+                let m = prim::aes_kw_unwrap(&kek, &encrypted_session_key).map_err(|x| format!("what the crate emitted does not unwrap under the RFC construction: {x}"))?;
+                let pad = cases.iter().find(|c| c["kind"] == "pad" && c["n"] == n as u64).map(|c| c["pad"].as_u64().unwrap() as usize).ok_or("no pad case")?;
+                if m.len() != n + pad { return Err(format!("{} octets wrapped for a {n} octet value, the plan pads to {}", m.len(), n + pad)); }
+                if m[..n] != plain[..] || m[n..].iter().any(|&b| b as usize != pad) { return Err("padding octets differ from the plan".into()); }
+                Ok("crate->rfc".into())
+            });
+            sink.put(rec("c12.ecdh_pad", cj, r.is_ok(), "ecdh_pad", json!({"outcome": r.class(), "detail": match &r { Out::Ok(s) => s.clone(), o => o.detail() }})));
+        }
+    }
     let trials = if thorough { 600 } else { 120 };
     let pjobs: Vec<(usize, usize)> = (0..recips.len()).flat_map(|r| (0..trials).map(move |t| (r, t))).collect();
     let zero_z = AtomicU64::new(0);
